@@ -99,7 +99,7 @@ TApi ==
               [] E.name = "unsubscribe" -> Unsubscribe(s, E.sub, E.h, E.pos)
               [] E.name = "register" -> Register(s)
               [] E.name = "unregister" -> Unregister(s, E.reg)
-              [] E.name = "leave" -> Leave(s)
+              [] E.name = "leave" -> IF E.bad = "" THEN Leave(s) ELSE LeaveFails(s, "PayloadExceededError")
               [] E.name = "disconnect" -> Disconnect(s))
 TResolve == IsEvent("resolve") /\ Accept(Resolve(s, E.req, E.how))
 TProgress == IsEvent("progress") /\ Accept(Progress(s, E.req))
